@@ -209,8 +209,20 @@ class Kernel:
                 cands.append(t)
         return min(cands) if cands else None
 
+    aborted = False
+
     def run(self, until=None):
         """Run until nothing can happen before ``until`` (default: horizon)."""
+        try:
+            return self._run(until)
+        except BaseException as e:
+            if type(e).__name__ == 'RunTimeout':
+                # real-time watchdog: an actor never yields again; nothing
+                # can be unwound in an orderly way any more
+                self.aborted = True
+            raise
+
+    def _run(self, until=None):
         limit = self.horizon if until is None else min(until, self.horizon)
         while True:
             if self.steps >= self.step_cap:
@@ -255,13 +267,19 @@ class Kernel:
     def _switch_to(self, th):
         self.current = th
         th.sem.release()
-        self.main_sem.acquire()
+        # (timed wait: lets the kernel thread run a pending signal handler -
+        # the real-time watchdog - even if the sim thread never yields)
+        while not self.main_sem.acquire(timeout=1.0):
+            pass
         self.current = None
 
     # -- teardown ----------------------------------------------------------
     def shutdown(self):
         """Unwind every parked thread and close the loop."""
         self.killing = True
+        if self.aborted:
+            self.timers = []
+            return len(self.threads)
         leaked = 0
         for th in list(self.threads):
             rounds = 0
